@@ -27,6 +27,7 @@
   EasyMl/Lemmas/Determinism.lean.
 -/
 import EasyMl.Lemmas.Determinism
+import EasyMl.Lemmas.TapePositions
 import EasyMl.Props.C09
 
 namespace EasyMl.C18
@@ -100,6 +101,36 @@ theorem tape_positions_depend_on_append_order_only {R : Type} [Zero R] :
     simp [Rec.mkVar, Tape.appendNullary, World.update, hj]
 
 example : (appendAll ([] : Tape Int) [.nullary, .unary 0 5, .binary 0 2 1 3]).1 = [0, 1, 2] := by
+  decide
+
+/-- **Positions do not depend on the numeric inputs.**  Run any program (any sequence of record
+    operators: variables, constants, arithmetic in all operand forms, `neg`, `sum`, the real
+    functions, `pow`, user-supplied unary / binary functions) on tape `h` with two different
+    environments `env`, `env'` (the values of the input variables), starting from worlds whose
+    tapes have pairwise the same lengths.  Then both runs end the same way (both complete, or
+    both panic with the same kind at the same instruction); every tape has the same length in
+    both final worlds; and the records produced sit, pairwise, on the same tape at the same
+    position.  Only the numbers differ. -/
+theorem program_positions_independent_of_inputs {R : Type} [CommRing R] [Div R] [RealFns R]
+    (h : Nat) (env env' : Nat → R) (p : Prog R) (w w' : World R)
+    (hw : ∀ j, (w j).length = (w' j).length) :
+    (∀ j, ((p.exec h env w).1 j).length = ((p.exec h env' w').1 j).length) ∧
+      match (p.exec h env w).2, (p.exec h env' w').2 with
+      | .ok rs, .ok rs' =>
+        rs.length = rs'.length ∧
+          ∀ i, (getRec rs i).history = (getRec rs' i).history ∧ (getRec rs i).index = (getRec rs' i).index
+      | .panic k, .panic k' => k = k'
+      | _, _ => False :=
+  execFrom_sim h env env' p hw [] [] rfl (fun _ => RecSim.const _ _)
+
+/-- non-vacuity: `y = (x0 · x1 + 7) + x0` at two different points of the prime field lands at
+    the same positions -/
+example :
+    let p : Prog Fp := [.var, .var, .arith .mul 0 1, .arithNum .add 2 7, .arith .add 3 0]
+    (((p.exec 0 (fun i => Fp.ofNat (i + 2)) World.empty).2,
+        (p.exec 0 (fun i => Fp.ofNat (10 * i + 3)) World.empty).2) matches
+      (.ok [⟨_, some 0, 0⟩, ⟨_, some 0, 1⟩, ⟨_, some 0, 2⟩, ⟨_, some 0, 3⟩, ⟨_, some 0, 4⟩],
+       .ok [⟨_, some 0, 0⟩, ⟨_, some 0, 1⟩, ⟨_, some 0, 2⟩, ⟨_, some 0, 3⟩, ⟨_, some 0, 4⟩])) = true := by
   decide
 
 /-! ## unrelated earlier calls on the same tape -/
